@@ -189,6 +189,24 @@ theorem axisswap_honest (p : Parsed R) (dir : Dir) : Honest (Ops.axisswapSem R p
 theorem addone_honest (dir : Dir) : Honest (fun d : List (Coor R) => Ops.addoneSem dir d) := by
   intro d; simp [Ops.addoneSem]
 
+theorem gridshift_honest (genv : Grid.GridEnv R) (p : Parsed R) (dir : Dir) : Honest (Gridshift.sem genv p dir) := by
+  intro d; unfold Gridshift.sem
+  simp only []
+  split
+  · simp
+  · simp only [List.length_map, true_and]; exact filter_map_le _ _ _
+theorem deformation_honest (genv : Grid.GridEnv R) (p : Parsed R) (dir : Dir) : Honest (Deformation.sem genv p dir) := by
+  intro d; unfold Deformation.sem
+  simp only [List.length_map, true_and]; exact filter_map_le _ _ _
+theorem deflection_honest (genv : Grid.GridEnv R) (p : Parsed R) (dir : Dir) : Honest (Deflection.sem genv p dir) := by
+  intro d; unfold Deflection.sem
+  cases dir
+  · simp only []
+    split
+    · simp
+    · simp only [List.length_map, true_and]; exact filter_map_le _ _ _
+  · simp
+
 /-- **Every modelled built-in operator, in either direction, for any parameters and any data,
 returns as many tuples as it was given and never reports more successes than that** -/
 theorem honest_ite (c : Bool) (f g : List (Coor R) → List (Coor R) × Nat) (hf : Honest f) (hg : Honest g) :
@@ -197,7 +215,8 @@ theorem honest_ite (c : Bool) (f g : List (Coor R) → List (Coor R) × Nat) (hf
   · exact hg d
   · exact hf d
 
-theorem registry_honest (tag : Str) (p : Parsed R) (dir : Dir) : Honest (Registry.sem R tag p dir) := by
+theorem registry_honest (genv : Grid.GridEnv R) (tag : Str) (p : Parsed R) (dir : Dir) :
+    Honest (Registry.sem R genv tag p dir) := by
   unfold Registry.sem
   apply honest_ite; · exact addone_honest dir
   apply honest_ite; · exact fun d => by simp [Ops.noopSem]
@@ -222,6 +241,9 @@ theorem registry_honest (tag : Str) (p : Parsed R) (dir : Dir) : Honest (Registr
   apply honest_ite; · exact molodensky_honest p dir
   apply honest_ite; · exact permtide_honest p dir
   apply honest_ite; · exact lcc_honest p dir
+  apply honest_ite; · exact gridshift_honest genv p dir
+  apply honest_ite; · exact deformation_honest genv p dir
+  apply honest_ite; · exact deflection_honest genv p dir
   apply honest_ite; · exact fun d => by simp [Ops.placeholderSem]
   exact fun d => by simp
 
